@@ -68,6 +68,9 @@ end
 
 def renderFuel (_h : Heap) : Nat := 2 * renderBudget + 100
 def renderV (h : Heap) (v : Val) : Bytes := (render h (renderFuel h) [] renderBudget v).1
+/-- the value contains itself (`a[0] = a`): its rendering holds a back reference `^k` (strings are
+    rendered in hexadecimal, so the byte `^` can only be such a marker) -/
+def containsItself (h : Heap) (v : Val) : Bool := (renderV h v).contains 94
 /-- value with its tag -/
 def renderTV (h : Heap) (x : TV) : Bytes := bytesOf x.t.name ++ 61 :: renderV h x.v
 
